@@ -9,3 +9,26 @@ package ent
 //@ func (*Tx).Dialect(tx) (result)
 //@   trusted
 //@   modifies nothing
+
+// C09: the transaction runner. It reports success only when the wrapped function succeeded and the commit went
+// through; it commits only after the wrapped function returned nil and rolls back otherwise; a failure of the wrapped
+// function or of the commit is never reported as success. Ghost flags (spec/txspec.spec) record what was done with
+// the transaction; Commit/Rollback/BeginTx are intrinsic (database/sql is not verified).
+//@ func (*Client).DoTx(c, ctx, opts, inner) (finalErr)
+//@   property C09
+//@   uses txspec
+//@   requires c != nil
+//@   requires fresh_flags: !tx_commit_tried() && !tx_commit_failed() && !tx_rollback_tried() && !tx_inner_failed() && !tx_begin_failed()
+//@   ensures success_means_committed: finalErr == nil ==> tx_commit_tried() && !tx_commit_failed() && !tx_inner_failed() && !tx_begin_failed()
+//@   ensures commit_only_after_success: tx_commit_tried() ==> !tx_inner_failed() && !tx_rollback_tried()
+//@   ensures failure_rolls_back: tx_inner_failed() ==> tx_rollback_tried() && !tx_commit_tried() && finalErr != nil
+//@   ensures commit_failure_reported: tx_commit_failed() ==> finalErr != nil
+//@   ensures begin_failure_reported: tx_begin_failed() ==> finalErr != nil && !tx_commit_tried() && !tx_rollback_tried()
+//@   modifies *
+
+// the wrapped function: arbitrary effects on program state, none on the ghost record of the runner
+//@ func (*Client).DoTx.param.inner(tx) (err)
+//@   abstract
+//@   option unreachable locals
+//@   ghostset tx_inner_failed := err != nil
+//@   modifies F:*, B:*, E:*, T:*, MH:*, MV:*, G:*, CB:*, S:dbfailed, S:wake_on_commit, S:wake_requested, S:closed
